@@ -39,47 +39,7 @@ func runC10(c *core.Ctx, o Options) {
 		return
 	}
 	m := s.m
-	// ---- Y1
-	outs := s.handlers(false, "ALL", "setStorageCallbacks")
-	if c.Anchor("save-on-send handler", len(outs) == 1 && outs[0].Fn != nil, "outgoing ALL handler registered in setStorageCallbacks", token.NoPos) {
-		fn := outs[0].Fn
-		var bad []string
-		nSave := 0
-		paths, _ := an.EnumPaths(fn, 64)
-		for _, p := range paths {
-			var save *ssa.Call
-			for _, b := range p.Blocks {
-				for _, in := range b.Instrs {
-					if call, ok := in.(*ssa.Call); ok && call.Call.IsInvoke() && call.Call.Method.Name() == "Save" && an.TypeIs(call.Call.Value.Type(), "session", "MessageStorage") {
-						save = call
-					}
-				}
-			}
-			if save == nil {
-				bad = append(bad, "a path does not save the message: "+p.CondString())
-				continue
-			}
-			nSave++
-			if save.Call.Args[1] != ssa.Value(fn.Params[0]) {
-				bad = append(bad, "the value saved is not the message being sent: "+an.Render(save.Call.Args[1]))
-			}
-			if r := an.Render(save.Call.Args[2]); r != fn.Params[0].Name()+".HeaderBuilder().MsgSeqNum()" {
-				bad = append(bad, "the message is saved under "+r+", not under its own MsgSeqNum")
-			}
-			if sd := storageSide(save.Call.Args[0]); sd != "outgoing" {
-				bad = append(bad, "saved on side "+sd)
-			}
-			if len(p.Results) != 1 || p.Results[0] != "("+an.Render(save)+" == nil)" {
-				bad = append(bad, "the handler does not return (Save error == nil): "+strings.Join(p.Results, ","))
-			}
-		}
-		ob := c.Ob("Y1", "outbound:ALL@setStorageCallbacks", "Save(outgoing, msg, msg's own MsgSeqNum); returns err == nil", fn.Pos())
-		if len(bad) > 0 || nSave == 0 {
-			ob.Fail("%s", strings.Join(append(bad, ""), "; "))
-		} else {
-			ob.Ok("%d path(s)", nSave)
-		}
-	}
+	s.checkSaveHandler("Y1")
 	// ---- Y2 / Y3 / Y5 on the resend handler
 	rh := s.one(true, "ResendRequest")
 	if rh != nil {
@@ -425,4 +385,48 @@ func checkStorageMessages(c *core.Ctx, rule string) {
 	c.Check(idx != nil && okLoop && okAppend, rule, "Storage.Messages", "loop i = from; i <= to; i++ appends messages[i]", fn.Pos(),
 		"index starts at from, runs while i <= to, step 1, appends messages[i]", "the retrieval loop is not the inclusive ascending range from..to over messages[i]")
 	// under the store's mutex: C20
+}
+
+// checkSaveHandler (C10.Y1, C19.H3): the all-types outgoing handler registered at construction saves every message under its own number.
+func (s *sess) checkSaveHandler(rule string) {
+	outs := s.handlers(false, "ALL", "setStorageCallbacks")
+	if s.c.Anchor("save-on-send handler", len(outs) == 1 && outs[0].Fn != nil, "outgoing ALL handler registered in setStorageCallbacks", token.NoPos) {
+		fn := outs[0].Fn
+		var bad []string
+		nSave := 0
+		paths, _ := an.EnumPaths(fn, 64)
+		for _, p := range paths {
+			var save *ssa.Call
+			for _, b := range p.Blocks {
+				for _, in := range b.Instrs {
+					if call, ok := in.(*ssa.Call); ok && call.Call.IsInvoke() && call.Call.Method.Name() == "Save" && an.TypeIs(call.Call.Value.Type(), "session", "MessageStorage") {
+						save = call
+					}
+				}
+			}
+			if save == nil {
+				bad = append(bad, "a path does not save the message: "+p.CondString())
+				continue
+			}
+			nSave++
+			if save.Call.Args[1] != ssa.Value(fn.Params[0]) {
+				bad = append(bad, "the value saved is not the message being sent: "+an.Render(save.Call.Args[1]))
+			}
+			if r := an.Render(save.Call.Args[2]); r != fn.Params[0].Name()+".HeaderBuilder().MsgSeqNum()" {
+				bad = append(bad, "the message is saved under "+r+", not under its own MsgSeqNum")
+			}
+			if sd := storageSide(save.Call.Args[0]); sd != "outgoing" {
+				bad = append(bad, "saved on side "+sd)
+			}
+			if len(p.Results) != 1 || p.Results[0] != "("+an.Render(save)+" == nil)" {
+				bad = append(bad, "the handler does not return (Save error == nil): "+strings.Join(p.Results, ","))
+			}
+		}
+		ob := s.c.Ob(rule, "outbound:ALL@setStorageCallbacks", "Save(outgoing, msg, msg's own MsgSeqNum); returns err == nil", fn.Pos())
+		if len(bad) > 0 || nSave == 0 {
+			ob.Fail("%s", strings.Join(append(bad, ""), "; "))
+		} else {
+			ob.Ok("%d path(s)", nSave)
+		}
+	}
 }
